@@ -157,6 +157,26 @@ def run(chk):
             worst = max(len(getattr(ck, attr)(n)) for n in ck.nodes())
             prob = {"problem": f"{attr} bound exceeded", "max": worst, "naming": ren} if worst > 2 else same_function(c, ck, sorted(c.nodes()))
             chk.ob(f"C05.S.{fname}", key, prob is None, file=FILE, func=fname, fact=prob or {"max": worst}, expect="bound holds at every node and every original node keeps its function, for every visiting order")
+    # the shared corner-case corpus (feed-through ports, constants, shared operands, adversarial names ...)
+    from ..corpus import corpus
+
+    for cname_, tags, c in corpus(chk.tier, exclude=("x",)):
+        for fname, attr in (("limit_fanin", "fanin"), ("limit_fanout", "fanout")):
+            r = P.call(FILE, fname, c, 2)
+            n_eval += 1
+            key = f"{fname}::corpus::{cname_}"
+            if r[0] == "raise" and r[1] == "ValueError" and "names" in tags:
+                continue  # a clash with a helper-style name that is rejected loudly is not a wrong result
+            if r[0] != "return":
+                chk.ob(f"C05.S.{fname}", key, False, file=FILE, func=fname, fact={"result": str(r)[:160]})
+                continue
+            ck = r[1]
+            worst = max(len(getattr(ck, attr)(n)) for n in ck.nodes())
+            prob = {"problem": f"{attr} bound exceeded", "max": worst} if worst > 2 else None
+            if prob is None and (ck.inputs() != c.inputs() or ck.outputs() != c.outputs()):
+                prob = {"problem": "inputs/outputs changed"}
+            prob = prob or same_function(c, ck, sorted(c.nodes()))
+            chk.ob(f"C05.S.{fname}", key, prob is None, file=FILE, func=fname, fact=prob or {"max": worst}, expect="bound holds, io unchanged, every original node keeps its function")
     # helper names that already exist: a second pass with a smaller k, and a circuit that owns such a name
     wide = [c for k_, c in fams if k_ in ("xnor5", "nand5", "or5", "wide")]
     for c in wide:
